@@ -12,7 +12,7 @@ import (
 )
 
 func init() {
-	props["C07"] = &propDef{extraPkgs: []string{jsonPatchPkg}, run: runC07, explanation: "Partial (the 'only if' direction and result fidelity). Decided statically: (G1) outside batch mode, Parse succeeds only across the success edge of every protocol rule, per operation type — size gate before decoding, known type, suffix-data and delta presence, every hash rule (length ≤ MaxOperationHashLength, algorithm ∈ MultihashAlgorithms), non-empty patches each with a supported+enabled action and a passing patch validator (for-all loop form), delta size ≤ MaxDeltaSize, delta-hash binding, signing-key rules (present, valid, curve ∈ KeyAlgorithms, nonce empty or of NonceSize), protected-header rules (C02.G4), anchor-origin and time validators, reveal-value match, key-reuse and distinct-commitment rules, deactivate suffix equality; (K1) every one of the nine Protocol parameters the parser/applier read reaches exactly its own sink (comparison with the right length, membership loop, arithmetic with anchorFrom), with the documented operator; (P1) the returned operation carries type, suffix, namespaced id, the original bytes and the anchor origin of the parsed request. Not decided: the 'if' direction (no spurious rejections inside encoding/json, net/url, go-jose) and the semantic correctness of individual patch rules (C13). The protected-header rules of C02.G4 run inside this check as well. Each size limit is compared at exactly one place. The algorithm half of the hash test compares the code GetMultihashCode decodes from a well-formed multihash. All of C06 and the duplicate-refusing header decoder rule run inside this check; the decoded request is not modified. No parser function writes through a model / operation / JWK it is handed; C09.U1 runs here."}
+	props["C07"] = &propDef{extraPkgs: []string{jsonPatchPkg}, run: runC07, explanation: "Partial (the 'only if' direction and result fidelity). Decided statically: (G1) outside batch mode, Parse succeeds only across the success edge of every protocol rule, per operation type — size gate before decoding, known type, suffix-data and delta presence, every hash rule (length ≤ MaxOperationHashLength, algorithm ∈ MultihashAlgorithms), non-empty patches each with a supported+enabled action and a passing patch validator (for-all loop form), delta size ≤ MaxDeltaSize, delta-hash binding, signing-key rules (present, valid, curve ∈ KeyAlgorithms, nonce empty or of NonceSize), protected-header rules (C02.G4), anchor-origin and time validators, reveal-value match, key-reuse and distinct-commitment rules, deactivate suffix equality; (K1) every one of the nine Protocol parameters the parser/applier read reaches exactly its own sink (comparison with the right length, membership loop, arithmetic with anchorFrom), with the documented operator; (P1) the returned operation carries type, suffix, namespaced id, the original bytes and the anchor origin of the parsed request. Not decided: the 'if' direction (no spurious rejections inside encoding/json, net/url, go-jose) and the semantic correctness of individual patch rules (C13). The protected-header rules of C02.G4 run inside this check as well. Each size limit is compared at exactly one place. The algorithm half of the hash test compares the code GetMultihashCode decodes from a well-formed multihash. All of C06 and the duplicate-refusing header decoder rule run inside this check; the decoded request is not modified. No parser function writes through a model / operation / JWK it is handed; C09.U1 runs here. parseSignedData refuses only missing signed data, what ParseJWS refuses and what the header check refuses."}
 }
 
 func lenOf(p string) string  { return "len(" + p + ")" }
@@ -43,6 +43,30 @@ func runC07(c *Ctx) {
 	vs := c.Method(pParser, "Parser", "ValidateSuffixData")
 	ivm := c.Fn("hashing", "IsValidModelMultihash")
 	getC := c.Fn("commitment", "GetCommitment")
+	// (a helper of the parser that computes "the commitment of this key with the algorithm of that commitment" and hands
+	// back GetCommitment's result on its one success exit reads as that call)
+	if getC != nil {
+		saved := c.inlineFns
+		c.inlineFns = map[*ssa.Function]bool{}
+		for k, v := range saved {
+			c.inlineFns[k] = v
+		}
+		defer func() { c.inlineFns = saved }()
+		for _, g := range c.Funcs {
+			if pkgPathOf(g) != modPkg+pParser || g.Blocks == nil || g.Object() == nil || g.Object().Exported() || g.Parent() != nil {
+				continue
+			}
+			srs := successReturns(g)
+			if len(srs) != 1 || len(srs[0].Results) != 2 {
+				continue
+			}
+			if ex, isEx := returnedValue(srs[0], 0).(*ssa.Extract); isEx && ex.Index == 0 {
+				if cl, isC := ex.Tuple.(*ssa.Call); isC && cl.Call.StaticCallee() == getC {
+					c.inlineFns[g] = true
+				}
+			}
+		}
+	}
 	pvValidate := c.Fn(pPV, "Validate")
 	jwkValidate := c.Method("jws", "JWK", "Validate")
 	getAction := c.Method("patch", "Patch", "GetAction")
@@ -123,7 +147,9 @@ func runC07(c *Ctx) {
 			return false
 		}
 		a := declArgs(call)
-		if len(a) != 1 || c.Path(a[0], env) != actionPath {
+		// (a method of the parser handed the action, or a plain function handed the parser's list and the action)
+		listArg := len(a) == 2 && g.Signature.Recv() == nil && c.Path(a[0], env) == "$0.Protocol.Patches" && c.Path(a[1], env) == actionPath
+		if !listArg && (len(a) != 1 || c.Path(a[0], env) != actionPath) {
 			return false
 		}
 		// g returns true only behind Protocol.Patches[i] == action
@@ -131,6 +157,9 @@ func runC07(c *Ctx) {
 			return s == "$1" || (strings.HasPrefix(s, "conv<") && strings.HasSuffix(s, ">($1)"))
 		}
 		isEl := func(s string) bool {
+			if listArg && (s == "$0[ι]" || (strings.HasPrefix(s, "conv<") && strings.HasSuffix(s, ">($0[ι])"))) {
+				return true
+			}
 			return s == "$0.Protocol.Patches[ι]" || (strings.HasPrefix(s, "conv<") && strings.HasSuffix(s, ">($0.Protocol.Patches[ι])"))
 		}
 		ok, _, n := c.Guard(g, nil, anyOf("action is an element of Protocol.Patches",
@@ -450,6 +479,44 @@ func runC07(c *Ctx) {
 	// "accepted if well-formed": the signed anchoring times are no acceptance condition of the parser — it hands them to
 	// the configured time validator (non-batch) and compares them with nothing itself (C09.U1); a consistency test of its
 	// own refuses, in batch mode too, operations the applier is documented to degrade
+	// the signed data of an update / recover / deactivate is turned away only for what the statement names: no signed
+	// data, a text that is not a compact JWS, or protected headers that are not allowed — a further demand of the parser's
+	// own (a signature length per algorithm, say) refuses operations whose signature verifies
+	if psd := c.Method(pParser, "Parser", "parseSignedData"); psd != nil {
+		var extra []string
+		n := 0
+		fnRe := regexp.MustCompile(`^\(versions/1_0/operationparser\.([A-Za-z0-9_]+)\(`)
+		methRe := regexp.MustCompile(`^\(\(\*?versions/1_0/operationparser\.([A-Za-z0-9_]+)\)\.([A-Za-z0-9_]+)\(`)
+		var walk func(f *ssa.Function, d int)
+		walk = func(f *ssa.Function, d int) {
+			for _, r := range c.rejectionReasons(f, nil, false, 3) {
+				n++
+				switch {
+				case d == 0 && (strings.HasPrefix(r, `($1 == "")=true`) || strings.HasPrefix(r, `(len($1) == 0)=true`)):
+					continue
+				case strings.HasPrefix(r, "(jwsutil.ParseJWS(") && strings.HasSuffix(r, "#1 != nil)=true"):
+					continue
+				case strings.HasPrefix(r, "((*versions/1_0/operationparser.Parser).validateProtectedHeaders("):
+					continue
+				}
+				var h *ssa.Function
+				if m := fnRe.FindStringSubmatch(r); m != nil {
+					h = c.Fn(pParser, m[1])
+				} else if m := methRe.FindStringSubmatch(r); m != nil {
+					h = c.Method(pParser, m[1], m[2])
+				}
+				if h != nil && h.Object() != nil && !h.Object().Exported() && d < 2 && strings.HasSuffix(r, "!= nil)=true") {
+					walk(h, d+1)
+					continue
+				}
+				extra = append(extra, short(f.String())+": "+r)
+			}
+		}
+		walk(psd, 0)
+		c.Check("C07.G1", "parseSignedData:closed-set-of-refusals", n >= 3 && len(extra) == 0, psd.Pos(), fmt.Sprintf("parseSignedData refuses only missing signed data, what ParseJWS refuses and what the header check refuses; other reasons: %v", extra))
+	} else {
+		c.Unresolved("C07.G1", "(*Parser).parseSignedData")
+	}
 	c.only(runC09, "C09.U1")
 	c.Min("C09.U1", 1)
 }
